@@ -225,6 +225,11 @@ class _DictView:
 
 def _pick_alternative(ty, v):
     for alt in ty.alternatives():
+        if isinstance(alt, T.RecT):
+            cls = v.get("__cls__") if isinstance(v, dict) else type(v).__name__
+            if cls == alt.cls:
+                return alt
+            continue
         if isinstance(alt, T.NoneT) and v is None:
             return alt
         if isinstance(alt, T.Const) and alt.v == v and type(alt.v) == type(v):
